@@ -1,6 +1,7 @@
 """Build fact files by compiling a crate under the edrv driver (nightly, offline)."""
 import json
 import os
+import re
 import glob
 import shutil
 import time
@@ -182,3 +183,13 @@ def build_with_skips(crate_dir, crate_name, features=(), cfgs=(), max_rounds=4, 
             raise CheckError("witness crate %s fails to compile even after skipping %s" % (crate_name, skips))
         skips += sorted(newly)
     raise CheckError("witness crate %s: too many skip rounds" % crate_name)
+
+
+def parse_or_panic(diag):
+    """True for a diagnostic that says the macro's OUTPUT did not parse, or that the macro panicked
+    (as opposed to a type / resolution error in well-formed output, which carries an error code)."""
+    if diag.get("code"):
+        return False
+    texts = [diag.get("message") or ""] + [c or "" for c in (diag.get("children") or [])]
+    return any(re.search(r"panicked|^expected |^unexpected |macro expansion ignores|^unknown start of token|^mismatched closing|"
+                         r"^unclosed delimiter|^this file contains an unclosed|^incorrect close delimiter", t) for t in texts)
